@@ -15,7 +15,9 @@ RULE = ('(alphabet) every sequence up to length 3 (quick: all of length <=2 + sa
         'call; (random) random byte frames of every CAN FD length with random virtual-time gaps and batching. Oracle: no exception '
         'escapes; every reported error is an IsoTpError class; every delivery is justified by the traffic (SF data, or FF-announced '
         'length <= max_frame_size built from the FF and in-sequence CFs with no new message between; one delivery per frame at most); '
-        'only Flow Control frames are emitted, at most one per First Frame / completed block. All cases replayed on the extracted model.')
+        'only Flow Control frames are emitted, at most one per First Frame / completed block; (interrupts) well-formed messages abandoned at a '
+        'random frame by the next First / Single Frame, blocksize 2/3/5: a Flow Control exactly after each First Frame and each completed block '
+        'of the message in progress, none elsewhere. All cases replayed on the extracted model.')
 ASSUME = ['bytes are 0..255; user callbacks do not raise']
 
 ERRORS = {'FlowControlTimeoutError', 'ConsecutiveFrameTimeoutError', 'InvalidCanDataError', 'UnexpectedFlowControlError',
@@ -150,6 +152,64 @@ def oracle(case, lines, insts):
     return fails
 
 
+def gen_interrupts(rng):
+    """well-formed messages, each possibly abandoned at a random frame by the next one (First Frame or Single Frame interrupting)"""
+    a, _b = rand_inst_pair(rng)
+    bs = rng.choice([2, 3, 5])
+    inst = dict(a, params={'blocksize': bs, 'max_frame_size': 4095, 'stmin': 0})
+    rid, ext, pfx = reach(inst)
+    ops = []
+    plan = []
+    for _ in range(rng.randint(2, 5)):
+        n = rng.choice([3, 20, 45, 80])
+        frames = encode_stream(bytes(rng.getrandbits(8) for _ in range(n)), 8, pfx, 'min')
+        cut = len(frames) if rng.random() < 0.4 else rng.randint(1, len(frames))
+        plan.append((n, cut, len(frames)))
+        for f in frames[:cut]:
+            ops += [[0, 'rx', rid, int(ext), hx(f)], [0, 'proc', 1, 1], [0, 'recv']]
+    return {'insts': [inst], 'ops': ops, 'nops': len(ops), 'one_per_call': True, 'plan': plan, 'bs': bs}
+
+
+def oracle_interrupts(case, lines, insts):
+    """Flow Controls exactly where the traffic justifies them: one after each First Frame, one after each completed block of the
+    message in progress (counted from ITS First Frame), none elsewhere."""
+    fails = oracle(case, lines, insts)
+    if case.get('nops') != len(case['ops']):
+        return fails
+    inst = case['insts'][0]
+    rid, ext, pfx = reach(inst)
+    bs = case['bs']
+    in_block = None
+    remaining = 0
+    for op, l in zip(case['ops'], lines):
+        if op[1] == 'rx':
+            d = unhx(op[4])[len(pfx):]
+            t = d[0] >> 4
+            expect_fc = False
+            if t == 1:
+                remaining = (((d[0] & 0xF) << 8) | d[1]) - (len(d) - 2)
+                in_block = 0
+                expect_fc = True
+            elif t == 0:
+                in_block = None
+            elif t == 2 and in_block is not None:
+                remaining -= len(d) - 1
+                in_block += 1
+                if remaining <= 0:
+                    in_block = None
+                elif in_block == bs:
+                    in_block = 0
+                    expect_fc = True
+            cur = expect_fc
+        elif op[1] == 'proc':
+            n = sum(1 for e in split_line(l)[0] if e.startswith('tx:'))
+            if n != int(cur):
+                fails.append(('C05:flow-control-not-justified', 'after frame %s: %d Flow Control(s) emitted, the traffic justifies %d (blocksize %d, plan %s)' % (
+                    op, n, int(cur), bs, case['plan'])))
+                break
+    return fails
+
+
 def cfgs(rng):
     out = []
     for mode in ('Normal_11bits', 'Extended_29bits'):
@@ -203,6 +263,13 @@ def run_shard(campaign, shard, nshards, seed, tier):
                 part.distinct((mode, bs, mfs, sq, bool(pre)))
                 lc.run_case(part, campaign, case, oracle=oracle, theorem=THEOREMS)
             part.sample({'inst': inst, 'alphabet': [hx(x[2]) for x in A[:8]], 'sequences': 'all up to length %d' % (2 if quick else 3)})
+    elif campaign == 'interrupts':
+        for _ in range((400 if quick else 20000) // nshards + 1):
+            case = gen_interrupts(rng)
+            part.distinct(case)
+            part.hist('interrupt_plan', 'msgs=%d/bs=%d' % (len(case['plan']), case['bs']))
+            lc.run_case(part, campaign, case, oracle=oracle_interrupts, theorem=THEOREMS)
+            part.sample({'inst': case['insts'][0], 'plan': case['plan']})
     else:
         n = (700 if quick else 60000) // nshards + 1
         for _ in range(n):
@@ -236,5 +303,6 @@ def run_shard(campaign, shard, nshards, seed, tier):
 def run(ctx):
     run_sharded(ctx, 'C05', 'alphabet')
     run_sharded(ctx, 'C05', 'random')
+    run_sharded(ctx, 'C05', 'interrupts')
     ctx.exhaustive['all alphabet sequences up to length %d for each of the 12 configurations' % (2 if ctx.quick else 3)] = True
     return RULE, ASSUME
